@@ -106,7 +106,37 @@ def envsFor (s : St) (t : Nat) (ev : Event) : List Env :=
   | .sPeek _ => if s.sh.heap.isEmpty then [.pick 0] else (List.range s.sh.heap.length).map .pick
   | _ => [.go]
 
-def cands (s : St) (t : Nat) (ev : Event) : List (Label × St × String) :=
+/-- Tabulation of the model's function-valued maps. The model keeps its maps as functions updated by `upd`; compiled,
+    a definition like `setEnts sh l es : Lid → TList` is a partial application that re-evaluates its `sh.lists l` on every
+    look-up, so the cost of a look-up grows (up to exponentially) with the number of steps taken. The replay therefore
+    re-tabulates the maps after each step: `ofArr (tabArr n f) f` is `f` on `[0, n)` from a strict array and `f` itself
+    beyond. Extensionally the identity (`norm_eq`), so the replayed step is still the model's `step`.
+    (The array must be built outside the closure: a `let` inside a definition of type `Nat → α` is re-run per call.) -/
+def tabArr {α : Type} (n : Nat) (f : Nat → α) : Array α := (Array.range n).map f
+def ofArr {α : Type} (a : Array α) (f : Nat → α) : Nat → α := fun i => if h : i < a.size then a[i] else f i
+
+theorem ofArr_tabArr {α : Type} (n : Nat) (f : Nat → α) : ofArr (tabArr n f) f = f := by
+  funext i
+  simp only [ofArr, tabArr]
+  by_cases h : i < (Array.map f (Array.range n)).size
+  · simp [h]
+  · simp [h]
+
+def norm (s : St) : St :=
+  let k := s.sh.nextL + 1
+  let a1 := tabArr k s.sh.lists
+  let a2 := tabArr k s.sh.owner
+  let a3 := tabArr k s.sh.hent
+  let a4 := tabArr k s.sh.cov
+  let a5 := tabArr s.n s.pcs
+  { s with sh := { s.sh with lists := ofArr a1 s.sh.lists, owner := ofArr a2 s.sh.owner, hent := ofArr a3 s.sh.hent,
+                             cov := ofArr a4 s.sh.cov },
+           pcs := ofArr a5 s.pcs }
+
+theorem norm_eq (s : St) : norm s = s := by
+  simp [norm, ofArr_tabArr]
+
+def candsRaw (s : St) (t : Nat) (ev : Event) : List (Label × St × String) :=
   let pc := s.pcs t
   -- observations: the clock of the harness, the handler invocation
   if ev.op == "clock.set" then
@@ -125,6 +155,9 @@ def cands (s : St) (t : Nat) (ev : Event) : List (Label × St × String) :=
       match step s t e with
       | some s' => some (label s.sh pc e, s', transName s.sh pc e (s'.pcs t))
       | none => none
+
+def cands (s : St) (t : Nat) (ev : Event) : List (Label × St × String) :=
+  (candsRaw s t ev).map fun (l, s', n) => (l, norm s', n)
 
 /-- executable check of headline invariants on the replayed state -/
 def invCheck (s : St) : Option String :=
